@@ -353,6 +353,35 @@ Definition too_deep (s : bytes) : bool := too_deep_aux s false false 0.
 Definition parse_json (fl : flavour) (numval : bytes -> option N) (text : bytes) : jparse :=
   if too_deep text then PBad else parse_text fl numval text.
 
+(** ** integer tokens: the float64 of a token without fraction and exponent whose value is below
+    2^53 is exact, and its IEEE-754 bits are computed here (sign, biased exponent 1023 + floor(log2 v),
+    the 52 bits after the leading one); [None]: not such a token (the value comes from [numval]) *)
+Fixpoint dec_value (s : bytes) (acc : N) : option N :=
+  match s with
+  | [] => Some acc
+  | c :: r => if is_digit c then dec_value r (acc * 10 + (c - 48)) else None
+  end.
+
+Definition float_bits_of_int (v : N) : N :=
+  match v with
+  | 0 => 0
+  | _ => let e := N.log2 v in (1023 + e) * 4503599627370496 + (v * 2 ^ (52 - e) - 4503599627370496)
+  end.
+
+Definition int_bits (tok : bytes) : option N :=
+  let (neg, ds) := match tok with c :: r => if c =? 45 then (true, r) else (false, tok) | [] => (false, []) end in
+  match ds with
+  | [] => None
+  | _ :: _ =>
+      if Nat.ltb 16 (length ds) then None
+      else match dec_value ds 0 with
+           | Some v => if v <? 9007199254740992
+                       then Some ((if neg then 9223372036854775808 else 0) + float_bits_of_int v)
+                       else None
+           | None => None
+           end
+  end.
+
 (** the number tokens of a text (maximal runs of number characters outside strings that are
     well-formed numbers): what [numval] will be asked about *)
 Fixpoint num_tokens (n : nat) (s : bytes) : list bytes :=
